@@ -148,20 +148,18 @@ def conditional_gr_complex(pos, H, boxlength, ppp, A, rdelta, nbins, edge_eps=1e
     x = d / rdelta
     k0 = np.floor(x).astype(int)
     near = np.abs(x - np.round(x)) <= edge_eps * np.maximum(1.0, x)
-    cnt = np.zeros(nbins)
+    # vectorised (N of several hundred gives 1e5 pairs): definite pairs go to their bin, a pair sitting on edge e is
+    # acceptable in both bins e-1 and e
+    inb = ~near & (k0 >= 0) & (k0 < nbins)
+    cnt = np.bincount(k0[inb], minlength=nbins).astype(float)
+    gA = np.bincount(k0[inb], weights=wgt[inb], minlength=nbins)
     amb = np.zeros(nbins)
-    gA = np.zeros(nbins)
     slack = np.zeros(nbins)
-    for p in range(len(d)):
-        if near[p]:
-            e = int(np.round(x[p]))          # the edge index it sits on: bins e-1 and e are both acceptable
-            for b in (e - 1, e):
-                if 0 <= b < nbins:
-                    amb[b] += 1
-                    slack[b] += abs(wgt[p])
-        elif 0 <= k0[p] < nbins:
-            cnt[k0[p]] += 1
-            gA[k0[p]] += wgt[p]
+    e = np.round(x[near]).astype(int)
+    for b in (e - 1, e):
+        m = (b >= 0) & (b < nbins)
+        amb += np.bincount(b[m], minlength=nbins)
+        slack += np.bincount(b[m], weights=np.abs(wgt[near][m]), minlength=nbins)
     edges = np.arange(nbins + 1) * rdelta
     shell = np.pi * (edges[1:] ** 2 - edges[:-1] ** 2)
     rho = N / float(np.prod(boxlength))
